@@ -66,11 +66,13 @@ func c12check(v *pos.Validators, want []c12pair) string {
 
 func runC12(c *ev.Ctx) {
 	c.Rule = "random multisets of (ID, weight) pairs incl. zero weights, overwrites and deletions-by-zero, inserted in every permutation (<=5 distinct insertions) or 4 random permutations; every getter (SortedIDs, SortedWeights, Idxs, IDs, GetIdx, GetID, Get, Exists, Len, TotalWeight) is compared with the oracle's sort (weight desc, id asc) of the final non-zero pairs; " +
-		"RLP encode->decode, Copy() and Builder().Build() must preserve everything; BigBuilder with stakes up to 2^256 (dust next to whales, many word-sized stakes summing past 2^64, exact powers of two): no panic, weight(id) == stake >> shift with ONE shift = max(0, bitlen(total)-31), zero-weight members dropped, order of weights follows order of stakes. " +
+		"RLP encode->decode, Copy() and Builder().Build() must preserve everything; builder reuse: after editing the builder a set was built from, set.Builder() or set.Copy().Builder(), the set (every getter, its encoding, counting it whole) is unchanged and the next Build has exactly the edited pairs; decoding into a destination (variable or struct field) that already holds another set yields exactly the encoded set; BigBuilder with stakes up to 2^256 (dust next to whales, many word-sized stakes summing past 2^64, exact powers of two): no panic, weight(id) == stake >> shift with ONE shift = max(0, bitlen(total)-31), zero-weight members dropped, order of weights follows order of stakes. " +
 		"non-trivial = distinct pair-multiset fingerprints that contain a weight tie or a zero/overwritten entry (plain part), or a big set whose shift is > 0 (big part)"
 	c.Assumptions = []string{"oracle: sort by (weight desc, id asc) over the final map of non-zero pairs; big-integer arithmetic of math/big"}
 	n := c.Pick(30000, 1500000)
 	c.Parallel(n, 0, func(i int) { c12Plain(c, c.Rand("plain", i), i) })
+	na := c.Pick(20000, 500000)
+	c.Parallel(na, 0, func(i int) { c12Aliasing(c, c.Rand("alias", i), i) })
 	nb := c.Pick(30000, 1000000)
 	c.Parallel(nb, 0, func(i int) { c12Big(c, c.Rand("big", i), i) })
 }
